@@ -1,0 +1,53 @@
+//! Verification-only thin wrappers (g7, property C40: SDK model vs program model).
+//! No logic of their own: they only construct the program's revertible market views
+//! exactly as the execute operations do and hand them to a closure WITHOUT committing.
+//! Compiled only with `--cfg gmsol_verif`.
+use anchor_lang::prelude::*;
+use anchor_spl::token::Mint;
+
+use crate::{
+    events::EventEmitter,
+    states::{
+        market::revertible::{
+            liquidity_market::RevertibleLiquidityMarket, market::RevertibleMarket,
+            revertible_position::RevertiblePosition,
+        },
+        Market, Position, Store,
+    },
+};
+
+/// `RevertibleMarket::new` (virtual inventories disabled) + `RevertibleLiquidityMarket::from_revertible_market`,
+/// as the deposit / withdrawal operations do; nothing is committed.
+pub fn with_revertible_liquidity_market<'a, 'info, R>(
+    market: &'a AccountLoader<'info, Market>,
+    market_token: &'a Account<'info, Mint>,
+    token_program: &'a AccountInfo<'info>,
+    store: &'a AccountLoader<'info, Store>,
+    event_authority: &'a AccountInfo<'info>,
+    event_authority_bump: u8,
+    f: impl FnOnce(&mut RevertibleLiquidityMarket<'a, 'info>) -> R,
+) -> Result<R> {
+    let event_emitter = EventEmitter::new(event_authority, event_authority_bump);
+    let market = RevertibleMarket::new(market, None, event_emitter)?;
+    let mut market =
+        RevertibleLiquidityMarket::from_revertible_market(market, market_token, token_program, store)?;
+    Ok(f(&mut market))
+}
+
+/// `RevertibleMarket::new` (virtual inventories disabled) + `RevertiblePosition::new`,
+/// as the order execution does; nothing is committed.
+pub fn with_revertible_position<'a, 'info, R>(
+    market: &'a AccountLoader<'info, Market>,
+    position: &'a AccountLoader<'info, Position>,
+    allow_market_closed: bool,
+    order_fee_discount_factor: u128,
+    event_authority: &'a AccountInfo<'info>,
+    event_authority_bump: u8,
+    f: impl FnOnce(&mut RevertiblePosition<'a, 'info>) -> R,
+) -> Result<R> {
+    let event_emitter = EventEmitter::new(event_authority, event_authority_bump);
+    let market = RevertibleMarket::new(market, None, event_emitter)?
+        .with_order_fee_discount_factor(order_fee_discount_factor);
+    let mut position = RevertiblePosition::new(market, position, allow_market_closed)?;
+    Ok(f(&mut position))
+}
